@@ -218,7 +218,8 @@ def leaves(j):
 
 
 def k2_shape(j):
-    """signature of finding K2: goes through np.asarray(x, dtype=int) and holds a non-integral finite float"""
+    """shape of the former finding K2 (fixed in 9e72b84; kept as a tag of the input distribution): goes through
+    np.asarray(x, dtype=int) and holds a non-integral finite float"""
     if j[0] not in ("l", "t", "nf"):
         return False
     return any(x[0] in ("f", "nf") and Fraction(x[1], x[2]).denominator != 1 for x in leaves(j))
@@ -687,26 +688,8 @@ class ConfigProp(core.Prop):
 
     # -- known findings ---------------------------------------------------------------------
     def finding_matchers(self):
-        def int_box_of(desc):
-            if desc["op"] == "box":
-                return desc["box"]["int"]
-            if desc["op"] == "attr":
-                sp = self.sites()[desc["site"]].space
-                return sp[0] == "box" and sp[1][0] == 1
-            return False
-
-        def k2(case, verdict):
-            """a list / tuple / numpy float scalar holding a finite non-integral float, offered to an integer Box
-            (directly or as a null point), and accepted"""
-            d = case.desc
-            if d["op"] == "box":
-                return bool(int_box_of(d) and k2_shape(d["value"]) and case.impl == "yes")
-            if d["op"] == "attr":
-                return bool(self.sites()[d["site"]].attr == "nullPoint" and int_box_of(d) and k2_shape(d["value"])
-                            and case.impl == "acc")
-            return False
-
-        return {"K2": k2}
+        """no open finding: K19a (fc3584a) and K2 (9e72b84) are fixed; their reproducers are corpus cases"""
+        return {}
 
 
 # ------------------------------------------------------------------------------------------
